@@ -49,6 +49,8 @@ def run(chk):
         if IFT in facts.crates:
             run_ift(chk, facts, cfg)
         census(chk, facts, cfg)
+        from .sites import run_sites
+        run_sites(chk, facts, "C02-d", cfg)
     from . import trec
     trec.run_scope(chk, "C02-b", scope="client", floor=12)
     chk.assume("bounds/overflow sites outside the checked zones (scaler buffer slicing, CFF and autohinter arithmetic), loop "
